@@ -1918,11 +1918,14 @@ class t2data(object):
         """
         allowed = ['HEAT', 'WATE', 'AIR ', 'MASS', 'DELV']
         convert = {'CO2 ':'COM2'}
-        delgens = []
+        delgens, keepgens = [], []
         for gen in self.generatorlist:
             if gen.type in convert: gen.type = convert[gen.type]
-            elif not ((gen.type in allowed) or gen.type.startswith('COM')):
-                delgens.append((gen.block, gen.name))
+            if (gen.type in allowed) or gen.type.startswith('COM'): keepgens.append(gen)
+            else: delgens.append((gen.block, gen.name))
+        if delgens:
+            self.generatorlist = keepgens
+            self.generator = dict([((gen.block, gen.name), gen) for gen in self.generatorlist])
         if warn and len(delgens) > 0:
             print('The following generators have types not supported' + \
                   ' by TOUGH2 and have been deleted:')
